@@ -12,13 +12,16 @@
 (*     the instructions it was rendered to                                   *)
 EXTENDS RV32, Json, IOUtils, TLC
 Recs == JsonDeserialize(IOEnv.TRACE_FILE)
-NChunks == 64
+\* two-level fan-out: chunk c holds records (c-1)*ChunkLen+1 .. c*ChunkLen (small chunks keep TLC's
+\* error-trace reconstruction cheap when many records are rejected)
+ChunkLen == 16
+NChunks == (Len(Recs) + ChunkLen - 1) \div ChunkLen
 VARIABLES chunk, i
 vars == <<chunk, i>>
 Init == chunk = 0 /\ i = 0
 PickChunk == chunk = 0 /\ chunk' \in 1..NChunks /\ i' = 0
 PickRec == chunk > 0 /\ i = 0 /\ chunk' = chunk
-           /\ i' \in {k \in 1..Len(Recs) : k % NChunks = chunk - 1}
+           /\ i' \in ((chunk - 1) * ChunkLen + 1)..(IF chunk * ChunkLen < Len(Recs) THEN chunk * ChunkLen ELSE Len(Recs))
 Next == PickChunk \/ PickRec
 
 Denoted(r) == Asm(r.mn, r.ops, r.sym, r.pc)
